@@ -59,13 +59,24 @@ class PE:
         # `lets` and the name counter are shared between the forks of a symbolic branch and inlined helper calls
         self.shared = shared if shared is not None else {'lets': [], 'n': 0}
         self.depth = depth
+        self.plain_return = False      # lenient mode: a `return e` yields the value of e (default: the wrapper call's optimal_size=)
 
     @property
     def lets(self):
         return self.shared['lets']
 
     def fork(self, env=None):
-        return PE(self.env if env is None else env, self.consts, self.funcs, self.shared, self.depth + 1)
+        p = PE(self.env if env is None else env, self.consts, self.funcs, self.shared, self.depth + 1)
+        p.plain_return = self.plain_return
+        return p
+
+    def let_term(self, v):
+        """the defining term of a let-bound symbol (for comparing the outcomes of two branches)."""
+        if v[0] in ('B', 'I'):
+            for ln, _, term in self.lets:
+                if ln == v[1]:
+                    return term
+        return None
 
     # -------------------------------------------------------------------------------- expressions
     def ev(self, e):
@@ -130,6 +141,9 @@ class PE:
             if isinstance(e.op, ast.LShift) and is_const(a) and a[1] == 1:
                 # `1 << k` (Python raises for a negative k; the callers only shift by n_word or n_word-1 with n_word >= 1)
                 return ('I', '((2 : Int) ^ (%s).toNat)' % to_lean_int(b))
+            if isinstance(e.op, (ast.BitAnd, ast.BitOr)):
+                # Python's & and | on integers: two's complement of unbounded width (Mathlib's Int.land / Int.lor)
+                return ('I', '(Int.%s %s %s)' % ('land' if isinstance(e.op, ast.BitAnd) else 'lor', to_lean_int(a), to_lean_int(b)))
             op = {ast.Add: '+', ast.Sub: '-', ast.Mult: '*'}.get(type(e.op))
             if op is None:
                 raise Untranslatable('binary operator %s' % type(e.op).__name__)
@@ -232,12 +246,19 @@ class PE:
                 name = self.env[name][1]
         elif isinstance(fn, ast.Attribute) and isinstance(fn.value, ast.Name) and fn.value.id == 'np':
             name = 'np.' + fn.attr
+        if isinstance(fn, ast.Attribute) and fn.attr == 'astype' and not (isinstance(fn.value, ast.Name) and fn.value.id == 'np'):
+            return self.ev(fn.value)            # elementwise: a cast does not change an integer that fits (the carrier is NumPy's business)
         if name is None or e.keywords and name not in ('np.diagonal',):
             raise Untranslatable('call')
         if name == 'np.diagonal':
             return ('K', 'diag')
-        if name == 'np.array':
+        if name in ('np.array', 'np.asarray') or name in self.consts.get('__identity__', ()):
             return self.ev(e.args[0])
+        if name == 'np.where' and len(e.args) == 3:
+            t = self.ev(e.args[0])
+            if is_const(t):
+                return self.ev(e.args[1] if t[1] else e.args[2])
+            return self.ite(t, self.ev(e.args[1]), self.ev(e.args[2]))
         if name == 'isinstance':
             # isinstance(vars, list) in _get_sizing; isinstance(x, Fxp) never reaches here (those ifs are skipped)
             if self.ev(e.args[0])[0] == 'L' and isinstance(e.args[1], ast.Name) and e.args[1].id == 'list':
@@ -369,7 +390,24 @@ class PE:
                             and isinstance(st.body[0].targets[0], ast.Name)
                             and st.body[0].targets[0].id == st.body[0].value.args[0].id)
                     if not wrap:
-                        self.poison(st)
+                        # an opaque test (e.g. which NumPy carrier is used): both branches are evaluated; a name keeps its value only
+                        # when both branches give it the same definition, every other assigned name becomes unknown
+                        a = self.fork(); b = self.fork()
+                        try:
+                            ra = a.run(list(st.body), lenient=True); rb = b.run(list(st.orelse), lenient=True)
+                        except Untranslatable:
+                            ra = rb = 'fail'
+                        stored = {n.id for n in ast.walk(st) if isinstance(n, ast.Name) and isinstance(n.ctx, ast.Store)}
+                        if ra is not None or rb is not None:
+                            self.poison(st)
+                        else:
+                            for nm in stored:
+                                va, vb = a.env.get(nm), b.env.get(nm)
+                                same = va is not None and vb is not None and (va == vb or (self.let_term(va) is not None and self.let_term(va) == self.let_term(vb)))
+                                if same:
+                                    self.env[nm] = va
+                                else:
+                                    self.env.pop(nm, None)
                     continue
                 if is_const(t):
                     return self.run(list(st.body if t[1] else st.orelse) + stmts[i + 1:], lenient=True)
@@ -381,7 +419,9 @@ class PE:
                 if ra is None or rb is None:
                     raise Untranslatable('a symbolic branch without a result on both sides (line %d)' % st.lineno)
                 return self.ite(t, ra, rb)
-            elif lenient and isinstance(st, ast.Return) and getattr(st, '_synthetic', False):
+            elif lenient and isinstance(st, ast.Return) and (getattr(st, '_synthetic', False) or self.plain_return):
+                if st.value is None:
+                    raise Untranslatable('bare return')
                 return self.ev(st.value)
             elif lenient and isinstance(st, ast.Return):
                 # the wrapper call: the operator's rule is its `optimal_size=` argument
@@ -695,7 +735,44 @@ def generate(repo=None):
     for key in ('rounding', 'overflow'):
         fvalid(key)
 
-    head = ('import FxpVerif.Model.Reduce\n'
+    # ------------------------------------------------------------------------------------------ utils.py (elementwise kernels)
+    try:
+        utree = ast.parse(open(os.path.join(repo, 'fxpmath', 'utils.py')).read())
+        ufuncs = {n.name: n for n in utree.body if isinstance(n, ast.FunctionDef)}
+    except Exception as e:
+        ufuncs = {}
+        problems['utils.py'] = '%s: %s' % (type(e).__name__, e)
+
+    def fwrap():
+        node = ufuncs.get('wrap')
+        if node is None:
+            raise Untranslatable('utils.wrap not found')
+        a = [p.arg for p in node.args.args]
+        c2 = dict(consts); c2['__identity__'] = ('int_array',)
+        pe = PE({a[0]: ('I', 'k'), a[1]: ('B', 'xs'), a[2]: ('I', 'xw')}, c2, {})
+        pe.plain_return = True
+        r = pe.run(node.body, lenient=True)
+        if r is None or r[0] != 'I':
+            raise Untranslatable('no integer result')
+        return emit('wrapElem', '(xs : Bool) (xw : Int) (k : Int)', pe, r,
+                    '`utils.wrap(x, signed, n_word)` on one element `k` (NumPy casts are the identity on an integer that fits its carrier; `&`, `|` are `Int.land`, `Int.lor`)')
+    attempt('wrapElem', fwrap)
+
+    for fname, lean_name in (('clip', 'clipElem'), ('int_clip', 'intClipElem')):
+        def fclip(fname=fname, lean_name=lean_name):
+            node = ufuncs.get(fname)
+            if node is None:
+                raise Untranslatable('utils.%s not found' % fname)
+            a = [p.arg for p in node.args.args]
+            pe = PE({a[0]: ('I', 'k'), a[1]: ('I', 'lo'), a[2]: ('I', 'hi')}, consts, {})
+            pe.plain_return = True
+            r = pe.run(node.body, lenient=True)
+            if r is None or r[0] != 'I':
+                raise Untranslatable('no integer result')
+            return emit(lean_name, '(k lo hi : Int)', pe, r, '`utils.%s(x, val_min, val_max)` on one (integer) element' % fname)
+        attempt(lean_name, fclip)
+
+    head = ('import FxpVerif.Model.Reduce\nimport Mathlib.Data.Int.Bitwise\n'
             '/-! # GENERATED by harness/srcgen.py from fxpmath/functions.py — do not edit\n'
             'One definition per Python rule, one `let` per Python assignment, in source order.\n'
             '`x.signed, x.n_word, x.n_int, x.n_frac` are the parameters `xs xw xi xf` (same for `y`), `k` is the number of\n'
